@@ -117,15 +117,24 @@ def _mk_case(tasks: List[Dict[str, Any]], budgets: List[int], clock0: Optional[i
     return case
 
 
+def _call(req: Dict[str, Any]) -> Dict[str, Any]:
+    """One request; a dead harness process (the sandbox is shared: OOM victim, stray pkill) is restarted once.  A
+    request that kills the harness deterministically still ends as HarnessError (exit 2)."""
+    try:
+        return rsclient.shared().call(req)
+    except HarnessError:
+        return rsclient.shared().call(req)
+
+
 def _rust_sched(cases: List[Dict[str, Any]]) -> List[Dict[str, Any]]:
-    resp = rsclient.shared().call({"cmd": "c18.sched", "cases": cases})
+    resp = _call({"cmd": "c18.sched", "cases": cases})
     if not resp.get("ok"):
         raise HarnessError(f"c18.sched failed: {str(resp)[:300]}")
     return resp["results"]
 
 
 def _rust_cpu(cases: List[Dict[str, Any]]) -> List[Dict[str, Any]]:
-    resp = rsclient.shared().call({"cmd": "c18.cpu", "cases": cases})
+    resp = _call({"cmd": "c18.cpu", "cases": cases})
     if not resp.get("ok"):
         raise HarnessError(f"c18.cpu failed: {str(resp)[:300]}")
     return resp["results"]
